@@ -268,12 +268,12 @@ Section CPBlocks.
 Context {F : Type} (Op : fops F).
 Local Notation "a *f b" := (fmul Op a b) (at level 40, left associativity).
 Fixpoint prodF (ds : list F) : F := match ds with [] => f1 Op | d :: ds' => d *f prodF ds' end.
-(* gs = ds (.) gs'  column by column *)
-Fixpoint scaled (gs gs' : list (nat -> F)) (ds : list F) : Prop :=
-  match gs, gs', ds with
-  | g :: gs0, g' :: gs0', d :: ds0 => (forall i, g i = d *f g' i) /\ scaled gs0 gs0' ds0
-  | [], [], [] => True
-  | _, _, _ => False
+(* gs = ds (.) gs'  column by column, on the rows that exist (dims = number of rows of each factor) *)
+Fixpoint scaled (dims : list nat) (gs gs' : list (nat -> F)) (ds : list F) : Prop :=
+  match dims, gs, gs', ds with
+  | n :: dims0, g :: gs0, g' :: gs0', d :: ds0 => (forall i, i < n -> g i = d *f g' i) /\ scaled dims0 gs0 gs0' ds0
+  | [], [], [], [] => True
+  | _, _, _, _ => False
   end.
 
 Variables (s : list nat) (X : list nat -> F) (R : nat).
@@ -293,7 +293,7 @@ Definition cp_fast (weighted_mttkrp : bool) (cur : blocks blk) (c : nat * blocks
 (* a normalisation step = any rescaling of the columns absorbed by the weights *)
 Definition rescaling (st st' : blocks blk) : Prop :=
   exists ds : nat -> list F,
-    (forall r, r < R -> scaled (cols_of st r) (cols_of st' r) (ds r)) /\
+    (forall r, r < R -> scaled s (cols_of st r) (cols_of st' r) (ds r)) /\
     (forall r, r < R -> w_of st' r = w_of st r *f prodF (ds r)).
 End CPBlocks.
 
